@@ -47,7 +47,8 @@ Inductive aexpr :=
 Inductive stmt :=
 | SSet (a : string) (e : aexpr)        (* self.a = e *)
 | SMutate (a : string) (e : aexpr)     (* self.a.append(e), self.a += e, unknown call on self.a ... *)
-| SIf (c : aexpr) (body : list stmt).  (* if c: body   (loops and try-blocks are abstracted to this) *)
+| SIf (c : aexpr) (body orelse : list stmt).  (* if c: body else: orelse   (loops and try-blocks are
+                                                 abstracted to this with an empty else) *)
 
 Definition state := string -> tm.
 
@@ -70,11 +71,10 @@ Section Exec.
     match s with
     | SSet a e => upd st a (ev e st d)
     | SMutate a e => upd st a (TFn "mutated" (TPair (st a) (ev e st d)))
-    | SIf c body =>
-        if truth (ev c st d)
-        then (fix go (l : list stmt) (st : state) : state :=
-                match l with [] => st | x :: r => go r (exec_stmt x st d) end) body st
-        else st
+    | SIf c body orelse =>
+        (fix go (l : list stmt) (st : state) : state :=
+           match l with [] => st | x :: r => go r (exec_stmt x st d) end)
+          (if truth (ev c st d) then body else orelse) st
     end.
 
   Fixpoint exec (p : list stmt) (st : state) (d : tm) : state :=
@@ -107,8 +107,10 @@ Fixpoint reads (e : aexpr) : list string :=
 Fixpoint writes_stmt (s : stmt) : list string :=
   match s with
   | SSet a _ | SMutate a _ => [a]
-  | SIf _ body => (fix go (l : list stmt) : list string :=
-                     match l with [] => [] | x :: r => writes_stmt x ++ go r end) body
+  | SIf _ body orelse =>
+      let go := (fix go (l : list stmt) : list string :=
+                   match l with [] => [] | x :: r => writes_stmt x ++ go r end) in
+      go body ++ go orelse
   end.
 
 Fixpoint writes (p : list stmt) : list string :=
@@ -122,15 +124,16 @@ Fixpoint chk_stmt (W : list string) (s : stmt) (D : list string) : option (list 
   match s with
   | SSet a e => if reads_ok W D e then Some (a :: D) else None
   | SMutate _ _ => None
-  | SIf c body =>
+  | SIf c body orelse =>
       if reads_ok W D c then
-        match (fix go (l : list stmt) (D : list string) : option (list string) :=
+        let go := (fix go (l : list stmt) (D : list string) : option (list string) :=
                  match l with
                  | [] => Some D
                  | x :: r => match chk_stmt W x D with Some D' => go r D' | None => None end
-                 end) body D with
-        | Some _ => Some D       (* definitions made inside a branch do not count afterwards *)
-        | None => None
+                 end) in
+        match go body D, go orelse D with
+        | Some D1, Some D2 => Some (filter (fun a => mem a D2) D1)   (* defined on both paths *)
+        | _, _ => None
         end
       else None
   end.
@@ -158,14 +161,17 @@ Fixpoint summary_stmt (W : list string) (s : stmt) (D : list string)
       else if mem a (reads e) && negb (mem a D) then ([(a, SelfDependent)], D)
       else ([(a, Unknown)], D)
   | SMutate a _ => ([(a, SelfDependent)], D)
-  | SIf c body =>
-      let r := (fix go (l : list stmt) (D : list string) : list (string * wclass) * list string :=
+  | SIf c body orelse =>
+      let go := (fix go (l : list stmt) (D : list string) : list (string * wclass) * list string :=
                   match l with
                   | [] => ([], D)
                   | x :: r => let (s1, D1) := summary_stmt W x D in
                               let (s2, D2) := go r D1 in (s1 ++ s2, D2)
-                  end) body D in
-      ((if reads_ok W D c then [] else [("<condition>", Unknown)]) ++ fst r, D)
+                  end) in
+      let r1 := go body D in
+      let r2 := go orelse D in
+      ((if reads_ok W D c then [] else [("<condition>", Unknown)]) ++ fst r1 ++ fst r2,
+       filter (fun a => mem a (snd r2)) (snd r1))
   end.
 
 Fixpoint summary_from (W : list string) (p : list stmt) (D : list string) : list (string * wclass) :=
